@@ -404,9 +404,8 @@ fn resolve<'a>(scan: &'a Scan, anchor: &str, all: bool, ctx: &str) -> Vec<&'a No
     let name = it.next().unwrap_or("");
     let found: Vec<&Node> = scan.nodes.iter().filter(|n| n.kind == kind && (name.is_empty() || n.name == name)).collect();
     if all {
-        if found.is_empty() {
-            undecided(&format!("{ctx}: lost anchor `{anchor}` (no occurrence)"));
-        }
+        // "every occurrence" is also satisfied by none: a change that removes the last occurrence must be
+        // judged by the contracts, not end as a lost anchor
         return found;
     }
     let k = k.unwrap_or(0);
@@ -663,6 +662,10 @@ impl<'a> Gen<'a> {
             } else {
                 undecided(&format!("{ctx}: bad sub-region `{sub}`"))
             };
+            if self.canary && !sub.starts_with("expr ") {
+                let o = self.gen("canary");
+                self.ins(region.start, " assert(false); ".into(), o, "canary");
+            }
             return Some(region);
         }
         self.strip_attrs(attrs);
